@@ -15,6 +15,7 @@
 //! with `is_match`; brute-force shortest/longest matching prefix/suffix must agree with find/rfind and the
 //! trim results.  Patterns outside POSIX's defined notation give `-`.
 
+use yash_fnmatch::ast::{Ast, Atom, Bracket, BracketAtom, BracketItem};
 use yash_fnmatch::{Config, Error, Pattern, PatternChar, with_escape, without_escape};
 use yverif::proto::{Opts, dec_str, emit, enc_str, guarded, quiet_panics};
 use yverif::rng::Rng;
@@ -108,16 +109,53 @@ struct Compiled {
     pats: Result<Vec<Pattern>, &'static str>,
 }
 
-fn compile(esc: bool, p: &str) -> Compiled {
-    let pcs = pchars(esc, p);
+/// Compiles under every configuration.  The all-default configuration goes through the short entry point
+/// (`Pattern::parse` / `Pattern::from_ast`), the others through the `*_with_config` one.
+fn compile_with(key: (bool, String), build: impl Fn(Option<Config>) -> Result<Pattern, Error>) -> Compiled {
     let mut v = vec![];
     for (ab, ae, sh, lp) in ALL_CONFIGS {
-        match Pattern::parse_with_config(pcs.iter().copied(), cfg(ab, ae, sh, lp)) {
+        let c = if (ab, ae, sh, lp) == (false, false, false, false) { None } else { Some(cfg(ab, ae, sh, lp)) };
+        match build(c) {
             Ok(pat) => v.push(pat),
-            Err(e) => return Compiled { key: (esc, p.to_string()), pats: Err(err_class(&e)) },
+            Err(e) => return Compiled { key, pats: Err(err_class(&e)) },
         }
     }
-    Compiled { key: (esc, p.to_string()), pats: Ok(v) }
+    Compiled { key, pats: Ok(v) }
+}
+
+fn compile(esc: bool, p: &str) -> Compiled {
+    let pcs = pchars(esc, p);
+    compile_with((esc, p.to_string()), |c| match c {
+        None => Pattern::parse(pcs.iter().copied()),
+        Some(c) => Pattern::parse_with_config(pcs.iter().copied(), c),
+    })
+}
+
+fn compile_ast(key: &str, ast: &Ast) -> Compiled {
+    compile_with((false, format!("ast:{key}")), |c| match c {
+        None => Pattern::from_ast(ast),
+        Some(c) => Pattern::from_ast_and_config(ast, c),
+    })
+}
+
+/// `as_literal`, `into_literal` (the entry `glob.rs` uses, under its own configuration: both anchors +
+/// `literal_period`) and `Ast::is_literal` / `to_literal` must tell the same story; `want` = the literal string
+/// if the independent parser sees only ordinary characters.
+fn literal_api_check(comp: &Compiled, ast: &Ast, want: Option<Option<String>>) -> Option<String> {
+    let pats = comp.pats.as_ref().ok()?;
+    let a = pats[0].as_literal().map(|s| s.to_string());
+    let glob_cfg = pats[7].clone().into_literal().ok();
+    let plain = pats[1].clone().into_literal().ok();
+    let b = ast.to_literal();
+    if a != glob_cfg || a != plain || a != b || ast.is_literal() != a.is_some() {
+        return Some("FAIL:as_literal/into_literal/is_literal/to_literal disagree".into());
+    }
+    if let Some(w) = want {
+        if w != a {
+            return Some(format!("FAIL:literal {a:?} want {w:?}"));
+        }
+    }
+    None
 }
 
 fn observe(comp: &Compiled, text: &str) -> (String, Option<Seen>) {
@@ -398,19 +436,27 @@ fn gm(toks: &[Tok], s: &[char]) -> bool {
 fn oracle(esc: bool, p: &str, text: &str, seen: &Seen) -> String {
     let pcs = to_pcs(esc, p);
     let Some(toks) = oracle_parse(&pcs) else { return "-".into() };
+    oracle_toks(&toks, text, seen)
+}
+
+fn lit_of_toks(toks: &[Tok]) -> Option<String> {
+    toks.iter().map(|t| if let Tok::Lit(c) = t { Some(*c) } else { None }).collect()
+}
+
+fn oracle_toks(toks: &[Tok], text: &str, seen: &Seen) -> String {
     if !seen.ok {
         return "-".into();
     }
     let s: Vec<char> = text.chars().collect();
     let n = s.len();
     let off: Vec<usize> = text.char_indices().map(|x| x.0).chain([text.len()]).collect();
-    let whole = gm(&toks, &s);
+    let whole = gm(toks, &s);
     if whole != seen.m[0] {
         return format!("FAIL:is_match={} glob={}", seen.m[0], whole);
     }
-    let any_sub = (0..=n).any(|i| (i..=n).any(|j| gm(&toks, &s[i..j])));
-    let prefixes: Vec<usize> = (0..=n).filter(|&k| gm(&toks, &s[..k])).collect();
-    let suffixes: Vec<usize> = (0..=n).filter(|&k| gm(&toks, &s[k..])).collect();
+    let any_sub = (0..=n).any(|i| (i..=n).any(|j| gm(toks, &s[i..j])));
+    let prefixes: Vec<usize> = (0..=n).filter(|&k| gm(toks, &s[..k])).collect();
+    let suffixes: Vec<usize> = (0..=n).filter(|&k| gm(toks, &s[k..])).collect();
     if any_sub != seen.m[1] || !prefixes.is_empty() != seen.m[2] || !suffixes.is_empty() != seen.m[3] {
         return "FAIL:unanchored/half-anchored is_match".into();
     }
@@ -443,7 +489,7 @@ fn oracle(esc: bool, p: &str, text: &str, seen: &Seen) -> String {
     for (i, (a, b)) in seen.f.iter().enumerate() {
         let (ab, ae, _) = FIND_CONFIGS[i];
         let starts: Vec<usize> = (0..=n)
-            .filter(|&i| (i..=n).any(|j| (!ab || i == 0) && (!ae || j == n) && gm(&toks, &s[i..j])))
+            .filter(|&i| (i..=n).any(|j| (!ab || i == 0) && (!ae || j == n) && gm(toks, &s[i..j])))
             .collect();
         for (r, want_start) in [(a, starts.first()), (b, starts.last())] {
             match (r, want_start) {
@@ -454,7 +500,7 @@ fn oracle(esc: bool, p: &str, text: &str, seen: &Seen) -> String {
                     else {
                         return "FAIL:range not on char boundary".into();
                     };
-                    if ci != st || ci > cj || !gm(&toks, &s[ci..cj]) || (ae && cj != n) {
+                    if ci != st || ci > cj || !gm(toks, &s[ci..cj]) || (ae && cj != n) {
                         return format!("FAIL:range {r:?} of config {i} is not an extremal match");
                     }
                 }
@@ -466,12 +512,177 @@ fn oracle(esc: bool, p: &str, text: &str, seen: &Seen) -> String {
 }
 
 // ------------------------------------------------------------------------------------------
+// hand-built syntax trees (`a` cases): the `from_ast*` entry points on trees the parser cannot produce too
+
+fn parse_batom(t: &str) -> Option<BracketAtom> {
+    let (k, h) = t.split_at(1);
+    let v = dec_str(h)?;
+    Some(match k {
+        "c" => {
+            let mut it = v.chars();
+            let c = it.next()?;
+            if it.next().is_some() {
+                return None;
+            }
+            BracketAtom::from(c)
+        }
+        "s" => BracketAtom::CollatingSymbol(v),
+        "e" => BracketAtom::EquivalenceClass(v),
+        "k" => BracketAtom::CharClass(v),
+        _ => return None,
+    })
+}
+
+fn parse_bitem(t: &str) -> Option<BracketItem> {
+    let (k, r) = t.split_at(1);
+    match k {
+        "a" => Some(BracketItem::from(parse_batom(r)?)),
+        "r" => {
+            let (a, b) = r.split_once('~')?;
+            Some(BracketItem::from(parse_batom(a)?..=parse_batom(b)?))
+        }
+        _ => None,
+    }
+}
+
+fn parse_ast(t: &str) -> Option<Ast> {
+    let mut atoms = vec![];
+    if t == "-" {
+        return Some(Ast { atoms });
+    }
+    for a in t.split(',') {
+        atoms.push(match a {
+            "?" => Atom::AnyChar,
+            "*" => Atom::AnyString,
+            _ if a.starts_with('c') => {
+                let v = dec_str(&a[1..])?;
+                let mut it = v.chars();
+                let c = it.next()?;
+                if it.next().is_some() {
+                    return None;
+                }
+                Atom::Char(c)
+            }
+            _ if a.starts_with('b') => {
+                let complement = a[1..].starts_with('1');
+                let body = a.get(3..a.len().checked_sub(1)?)?;
+                let items: Option<Vec<BracketItem>> =
+                    if body.is_empty() { Some(vec![]) } else { body.split(';').map(parse_bitem).collect() };
+                Atom::Bracket(Bracket { complement, items: items? })
+            }
+            _ => return None,
+        });
+    }
+    Some(Ast { atoms })
+}
+
+/// the independent matcher's view of a tree; `None` = outside the defined notation
+fn ast_toks(ast: &Ast) -> Option<Vec<Tok>> {
+    let bound = |a: &BracketAtom| -> Option<char> {
+        match a {
+            BracketAtom::Char(c) => Some(*c),
+            BracketAtom::CollatingSymbol(v) | BracketAtom::EquivalenceClass(v) => v.chars().next(),
+            BracketAtom::CharClass(_) => None,
+        }
+    };
+    let mut out = vec![];
+    for a in &ast.atoms {
+        out.push(match a {
+            Atom::Char(c) => Tok::Lit(*c),
+            Atom::AnyChar => Tok::Any,
+            Atom::AnyString => Tok::Star,
+            Atom::Bracket(b) => {
+                if b.items.is_empty() {
+                    return None;
+                }
+                let mut items = vec![];
+                let mut seqs = vec![];
+                for it in &b.items {
+                    match it {
+                        BracketItem::Atom(BracketAtom::Char(c)) => items.push(SetItem::One(*c)),
+                        BracketItem::Atom(BracketAtom::CollatingSymbol(v))
+                        | BracketItem::Atom(BracketAtom::EquivalenceClass(v)) => {
+                            let cs: Vec<char> = v.chars().collect();
+                            match cs.len() {
+                                0 => return None,
+                                1 => items.push(SetItem::One(cs[0])),
+                                _ => seqs.push(cs),
+                            }
+                        }
+                        BracketItem::Atom(BracketAtom::CharClass(n)) => items.push(SetItem::Class(class_fn(n)?)),
+                        BracketItem::Range(r) => {
+                            let (lo, hi) = (bound(r.start())?, bound(r.end())?);
+                            if lo > hi {
+                                return None;
+                            }
+                            items.push(SetItem::Range(lo, hi));
+                        }
+                    }
+                }
+                Tok::Set { neg: b.complement, items, seqs }
+            }
+        });
+    }
+    Some(out)
+}
+
+fn rand_batom(r: &mut Rng) -> String {
+    let ch = |r: &mut Rng| enc_str(&rand_char(r).to_string());
+    match r.below(10) {
+        0..=4 => format!("c{}", ch(r)),
+        5 => format!("s{}", ch(r)),
+        6 => format!("e{}", ch(r)),
+        7 => {
+            let n = r.below(4);
+            let v: String = (0..n).map(|_| rand_char(r)).collect();
+            format!("{}{}", if r.chance(1, 2) { "s" } else { "e" }, enc_str(&v))
+        }
+        _ => format!("k{}", enc_str(r.pick(&CLASS_NAMES))),
+    }
+}
+
+fn rand_ast_case(r: &mut Rng) -> String {
+    let mut atoms = vec![];
+    let mut chars = String::from("ab");
+    for _ in 0..r.below(5) {
+        atoms.push(match r.below(10) {
+            0 | 1 => "*".to_string(),
+            2 => "?".to_string(),
+            3..=5 => {
+                let c = rand_char(r);
+                chars.push(c);
+                format!("c{}", enc_str(&c.to_string()))
+            }
+            _ => {
+                let n = if r.chance(1, 12) { 0 } else { 1 + r.below(4) };
+                let items: Vec<String> = (0..n)
+                    .map(|_| {
+                        if r.chance(1, 4) {
+                            format!("r{}~{}", rand_batom(r), rand_batom(r))
+                        } else {
+                            format!("a{}", rand_batom(r))
+                        }
+                    })
+                    .collect();
+                format!("b{}({})", if r.chance(1, 3) { 1 } else { 0 }, items.join(";"))
+            }
+        });
+    }
+    let ast = if atoms.is_empty() { "-".to_string() } else { atoms.join(",") };
+    let t = rand_text(r, &chars);
+    format!("a {} {}", ast, enc_str(&t))
+}
+
+// ------------------------------------------------------------------------------------------
 // shell leg
 
 fn run_shell(subj: &str, q1: &str, p1: &str, q2: &str, p2: &str) -> String {
     let script = "case $1 in (\"$2\"$3) echo 1;; (\"$4\"$5) echo 2;; (*) echo 0;; esac\n\
                   a=${1#\"$2\"$3} b=${1##\"$2\"$3} c=${1%\"$2\"$3} d=${1%%\"$2\"$3}\n\
-                  probe \"$a\" \"$b\" \"$c\" \"$d\"\n";
+                  probe \"$a\" \"$b\" \"$c\" \"$d\"\n\
+                  s=$1 q=$2 p=$3\n\
+                  set -- \"$s\" \"x$s\" \"$s$s\" \"\"\n\
+                  probe \"${@#\"$q\"$p}\"\nprobe \"${@##\"$q\"$p}\"\nprobe \"${@%\"$q\"$p}\"\nprobe \"${@%%\"$q\"$p}\"\n";
     let mut config = yverif::shell::Config::new(script);
     config.positional_params = [subj, q1, p1, q2, p2].iter().map(|s| s.to_string()).collect();
     let (out, _) = yverif::shell::run_with(config, |_, _| (), |_, _| ());
@@ -483,7 +694,10 @@ fn run_shell(subj: &str, q1: &str, p1: &str, q2: &str, p2: &str) -> String {
     let arm = lines.next().unwrap_or("none").to_string();
     let probe = lines.next().unwrap_or("");
     let t = probe.split_once(':').map(|x| x.1).unwrap_or("?");
-    format!("arm={arm} T={t}")
+    // the Array arm of `trim::apply`: four positional parameters trimmed at once
+    let arrays: Vec<String> =
+        lines.take(4).map(|l| l.split_once(':').map(|x| x.1).unwrap_or("?").to_string()).collect();
+    format!("arm={arm} T={t} A={}", arrays.join("/"))
 }
 
 // ------------------------------------------------------------------------------------------
@@ -550,10 +764,11 @@ fn alt_pcs(a: &Alt) -> Vec<Pc> {
 }
 
 /// Runs the `case` command; returns (observation, oracle).
-fn run_case_command(subj: &str, items: &[(char, Vec<Alt>)]) -> (String, String) {
+fn run_case_command(subj: &str, items: &[(char, char, Vec<Alt>)]) -> (String, String) {
     let mut params = vec![subj.to_string()];
-    let mut script = String::from("case $1 in ");
-    for (k, (cont, alts)) in items.iter().enumerate() {
+    // entered with `$?` = 7 so that the status the command leaves is its own doing
+    let mut script = String::from("st 7\ncase $1 in ");
+    for (k, (cont, body, alts)) in items.iter().enumerate() {
         script.push('(');
         for (j, a) in alts.iter().enumerate() {
             if j > 0 {
@@ -578,7 +793,11 @@ fn run_case_command(subj: &str, items: &[(char, Vec<Alt>)]) -> (String, String) 
                 }
             }
         }
-        script.push_str(&format!(") echo {} ", k + 1));
+        script.push_str(&match body {
+            'z' => ") ".to_string(),
+            's' => format!(") echo {}; st 5 ", k + 1),
+            _ => format!(") echo {} ", k + 1),
+        });
         script.push_str(match cont {
             'f' => ";&",
             'c' => ";;&",
@@ -616,9 +835,14 @@ fn run_case_command(subj: &str, items: &[(char, Vec<Alt>)]) -> (String, String) 
     };
     let mut want = vec![];
     let mut falling = false;
-    for (k, (cont, alts)) in items.iter().enumerate() {
+    let mut status = 0;
+    for (k, (cont, body, alts)) in items.iter().enumerate() {
         if falling || item_hit(alts) {
-            want.push((k + 1).to_string());
+            if *body != 'z' {
+                want.push((k + 1).to_string());
+            }
+            // an empty body resets the status to 0, `echo` leaves 0, `st 5` leaves 5
+            status = if *body == 's' { 5 } else { 0 };
             match cont {
                 'f' => falling = true,
                 'c' => falling = false,
@@ -626,10 +850,10 @@ fn run_case_command(subj: &str, items: &[(char, Vec<Alt>)]) -> (String, String) 
             }
         }
     }
-    let want = format!("run={} st=0", if want.is_empty() { "-".to_string() } else { want.join(".") });
+    let want = format!("run={} st={status}", if want.is_empty() { "-".to_string() } else { want.join(".") });
     // `[:ascii:]` / `[:word:]` are accepted by the implementation (regex-crate class names) but are not POSIX
     // class names: the independent matcher has no opinion on them
-    let extra_class = items.iter().flat_map(|(_, alts)| alts.iter()).any(|a| {
+    let extra_class = items.iter().flat_map(|(_, _, alts)| alts.iter()).any(|a| {
         let t: String = alt_pcs(a).iter().map(|x| x.0).collect();
         t.contains("[:ascii:]") || t.contains("[:word:]")
     });
@@ -712,15 +936,16 @@ fn rand_case(r: &mut Rng) -> String {
     let mut items = vec![];
     for _ in 0..1 + r.below(3) {
         let cont = *r.pick(&['b', 'b', 'b', 'f', 'c']);
+        let body = *r.pick(&['e', 'e', 'e', 'z', 's']);
         let mut alts = vec![];
         for _ in 0..1 + r.below(3) {
             alts.push(rand_alt(r, &subj));
         }
-        items.push((cont, alts));
+        items.push((cont, body, alts));
     }
     let toks: Vec<String> = items
         .iter()
-        .map(|(c, alts)| format!("{}:{}", c, alts.iter().map(show_alt).collect::<Vec<_>>().join(",")))
+        .map(|(c, b, alts)| format!("{}{}:{}", c, b, alts.iter().map(show_alt).collect::<Vec<_>>().join(",")))
         .collect();
     format!("k {} {}", enc_str(&subj), toks.join(" "))
 }
@@ -920,11 +1145,40 @@ fn run_case(case: &str, memo: &mut Option<Compiled>) {
                     *memo = Some(compile(esc, &p));
                 }
                 let (obs, seen) = observe(memo.as_ref().unwrap(), &t);
+                let toks = oracle_parse(&to_pcs(esc, &p));
                 if let Some(seen) = seen {
                     oracle_out = oracle(esc, &p, &t, &seen);
-                } else if oracle_parse(&to_pcs(esc, &p)).is_some() {
+                } else if toks.is_some() {
                     // a pattern inside the defined notation must compile
                     oracle_out = "FAIL:defined pattern rejected".into();
+                }
+                let ast = Ast::new(pchars(esc, &p));
+                if let Some(f) = literal_api_check(memo.as_ref().unwrap(), &ast, toks.map(|t| lit_of_toks(&t))) {
+                    oracle_out = f;
+                }
+                obs
+            });
+            emit(case, &obs, &oracle_out);
+        }
+        ["a", ast_text, t] => {
+            let (Some(ast), Some(t)) = (parse_ast(ast_text), dec_str(t)) else {
+                emit(case, "bad-case", "-");
+                return;
+            };
+            let mut oracle_out = String::from("-");
+            let obs = guarded(|| {
+                let comp = compile_ast(ast_text, &ast);
+                let (obs, seen) = observe(&comp, &t);
+                let toks = ast_toks(&ast);
+                if let Some(seen) = seen {
+                    if let Some(toks) = &toks {
+                        oracle_out = oracle_toks(toks, &t, &seen);
+                    }
+                } else if toks.is_some() {
+                    oracle_out = "FAIL:defined pattern rejected".into();
+                }
+                if let Some(f) = literal_api_check(&comp, &ast, toks.map(|t| lit_of_toks(&t))) {
+                    oracle_out = f;
                 }
                 obs
             });
@@ -940,12 +1194,13 @@ fn run_case(case: &str, memo: &mut Option<Compiled>) {
             emit(case, &obs, "-");
         }
         ["k", subj, rest @ ..] if !rest.is_empty() => {
-            let parsed: Option<Vec<(char, Vec<Alt>)>> = rest
+            let parsed: Option<Vec<(char, char, Vec<Alt>)>> = rest
                 .iter()
                 .map(|t| {
                     let (c, alts) = t.split_once(':')?;
                     let alts: Option<Vec<Alt>> = alts.split(',').map(parse_alt).collect();
-                    Some((c.chars().next()?, alts?))
+                    let mut cs = c.chars();
+                    Some((cs.next()?, cs.next().unwrap_or('e'), alts?))
                 })
                 .collect();
             let (Some(subj), Some(items)) = (dec_str(subj), parsed) else {
@@ -1063,6 +1318,13 @@ fn main() {
             let t = rand_text(&mut r, &p);
             go(mcase(esc, &p, &t));
         }
+    }
+
+    // 6. hand-built syntax trees through `from_ast` / `from_ast_and_config`
+    let nast = if thorough { 40_000 } else { 3_000 };
+    let mut ra = Rng::new(opts.seed ^ 0xA57);
+    for _ in 0..nast {
+        go(rand_ast_case(&mut ra));
     }
 
     // 5. shell leg 2: whole `case` commands
